@@ -450,6 +450,12 @@ func simple(c *mon.Case) {
 		case 2:
 			rc = s2.Rect{Lat: r1.Interval{Lo: -math.Pi / 2, Hi: r.Float64()}, Lng: s1.IntervalFromEndpoints(r.Float64()*3, -r.Float64()*3)}
 		}
+		if !rc.IsValid() {
+			// RectFromLatLng of a point whose longitude is exactly -pi builds the longitude interval [-pi,-pi],
+			// which is not a valid interval (a recorded C19 finding); C09 speaks of valid values only
+			c.Count("simple.invalid_rect_skipped", 1)
+			return
+		}
 		rt("Rect", func(b *bytes.Buffer) error { return rc.Encode(b) }, func(x []byte) (func() bool, error) {
 			var q s2.Rect
 			err := q.Decode(bytes.NewReader(x))
